@@ -83,6 +83,12 @@ def run(ctx):
             ("1500000000", {}, {"TIMEZONE": "Pacific/Kiritimati", "TO_TIMEZONE": "Pacific/Pago_Pago", "RETURN_AS_TIMEZONE_AWARE": True}),
             ("-9999999999", {}, {"PARSERS": ["negative-timestamp"], "TIMEZONE": "UTC"}), ("9999999999999999", {}, {"TIMEZONE": "UTC"}),
         ]
+        from ..c02gen import gate_string
+        gate_settings = [{"PARSERS": ["timestamp", "negative-timestamp", "relative-time", "custom-formats", "absolute-time"]}, {"PARSERS": ["negative-timestamp"]},
+                         {"PARSERS": ["negative-timestamp", "no-spaces-time", "absolute-time"], "TIMEZONE": "UTC"}, {"PARSERS": ["no-spaces-time"]}, {"PARSERS": ["timestamp"]},
+                         {"PARSERS": ["relative-time", "negative-timestamp"]}, None]
+        for _ in range(600 if ctx.quick() else 30000):
+            directed.append((gate_string(rng), rng.choice([{}, {"languages": ["en"]}, {"languages": ["ar"]}, {"languages": ["hi", "en"]}]), rng.choice(gate_settings)))
         for s, kw, st in directed:
             for api in ("ddp", "parse"):
                 cases.append({"s": s, "kw": dict(kw), "settings": st, "api": api, "probe": False, "valid": True})
